@@ -237,7 +237,7 @@ type hist struct {
 }
 
 type stats struct {
-	arrivals, reads, readsData, writes, writesOK, lenSmall, lenBig, lenTiny, trailing, big int
+	arrivals, reads, readsData, writes, writesOK, lenSmall, lenBig, lenTiny, trailing, big, manyViews int
 	cases, conc                                                                            int
 }
 
@@ -338,6 +338,17 @@ func (h *hist) arriveObs(nic, fam int, src []byte, sport, dport uint16, n int, l
 		chunks = []int{hl + 8, 1 + h.r.Intn(700), 1 + h.r.Intn(3000)}
 	case 3: // first view too short for the UDP header
 		chunks = []int{hl + h.r.Intn(8)}
+	case 6: // many views (a datagram reassembled from 9..15 fragments reaches UDP like this)
+		k := 8 + h.r.Intn(7)
+		per := 1
+		if n > k {
+			per = 1 + h.r.Intn(n/k)
+		}
+		chunks = []int{hl + 8 + h.r.Intn(4)}
+		for i := 0; i < k; i++ {
+			chunks = append(chunks, per)
+		}
+		h.stats.manyViews++
 	default:
 		chunks = []int{hl + 8 + h.r.Intn(200), 1 + h.r.Intn(1500)}
 	}
@@ -678,7 +689,10 @@ func genRecv(r *gen.Rng, st *stats, w *bufio.Writer, large bool) {
 			if r.Intn(8) == 0 {
 				tr = 1 + r.Intn(12)
 			}
-			cm := r.Intn(6)
+			cm := r.Intn(8)
+			if cm == 7 {
+				cm = 6
+			}
 			if cm == 3 && r.Intn(3) != 0 {
 				cm = 4
 			}
@@ -857,6 +871,6 @@ func main() {
 		genConc(r, st, w)
 	}
 	fmt.Fprintf(w, "# concurrent histories %d\n", st.conc)
-	fmt.Fprintf(w, "# cases %d; arrivals %d (length field smaller %d, larger %d, below 8 %d, trailing bytes %d); reads %d (with data %d); writes %d (ok %d, above 9000 bytes %d)\n",
-		st.cases, st.arrivals, st.lenSmall, st.lenBig, st.lenTiny, st.trailing, st.reads, st.readsData, st.writes, st.writesOK, st.big)
+	fmt.Fprintf(w, "# cases %d; arrivals %d (length field smaller %d, larger %d, below 8 %d, trailing bytes %d, in 9+ views %d); reads %d (with data %d); writes %d (ok %d, above 9000 bytes %d)\n",
+		st.cases, st.arrivals, st.lenSmall, st.lenBig, st.lenTiny, st.trailing, st.manyViews, st.reads, st.readsData, st.writes, st.writesOK, st.big)
 }
